@@ -6,7 +6,7 @@ REPO = os.environ.get('VERIF_REPO', '/repo')
 COQ = os.path.join(VERIF, 'coq')
 BUILD = os.path.join(VERIF, '_build')
 GUARD = 'DATASKETCHES_VERIF'
-PER_FILE_TIMEOUT = 900   # seconds per .v file (a hanging proof is a broken obligation, not a hung check)
+PER_FILE_TIMEOUT = 600   # seconds per .v file (a hanging proof is a broken obligation, not a hung check)
 INCLUDE_DIRS = ['common', 'count', 'cpc', 'density', 'fi', 'filters', 'hll', 'kll', 'quantiles', 'req',
                 'sampling', 'tdigest', 'theta', 'tuple']
 FORBIDDEN = re.compile(r'\b(Admitted|admit|Axiom|Axioms|Parameter|Parameters|Conjecture|Conjectures|'
@@ -113,7 +113,9 @@ def ensure_coqproject():
     return write_if_changed(os.path.join(COQ, '_CoqProject'), text)
 
 def coq_make(targets, timeout=1800):
-    """Build the given .vo targets (full .vo build) under the shared lock. Returns (ok, log)."""
+    """Build the given .vo targets (full .vo build). The global lock is held only while _CoqProject/Makefile are regenerated;
+       the build itself runs under a per-target-set lock, so that one family's long compile does not block the other checks
+       (after setup.sh everything is up to date and make is a no-op). Returns (ok, log)."""
     if not targets:
         return True, ''
     with Lock('coq'):
@@ -123,8 +125,9 @@ def coq_make(targets, timeout=1800):
             rc, out, _ = sh('coq_makefile -f _CoqProject -o Makefile', cwd=COQ, timeout=120)
             if rc != 0:
                 return False, out
-        tg = ' '.join(t + '.vo' for t in targets)
-        rc, out, dt = sh('timeout %d make -k -j16 COQC="timeout %d coqc" %s' % (timeout, PER_FILE_TIMEOUT, tg), cwd=COQ, timeout=timeout + 30)
+    tg = ' '.join(t + '.vo' for t in targets)
+    with Lock('coqmake_' + hashlib.sha1(tg.encode()).hexdigest()[:12]):
+        rc, out, dt = sh('timeout %d make -k -j8 COQC="timeout %d coqc" %s' % (timeout, PER_FILE_TIMEOUT, tg), cwd=COQ, timeout=timeout + 30)
         return rc == 0, out
 
 def coq_check_props(propfile, timeout=900):
@@ -132,8 +135,7 @@ def coq_check_props(propfile, timeout=900):
     path = os.path.join(COQ, propfile + '.v')
     src = strip_comments(open(path).read())
     theorems = re.findall(r'^\s*(?:Theorem|Corollary)\s+([A-Za-z0-9_\']+)', src, re.M)
-    with Lock('coq'):
-        rc, out, dt = sh('timeout %d coqc -Q . DS %s.v' % (timeout, propfile), cwd=COQ, timeout=timeout + 30)
+    rc, out, dt = sh('timeout %d coqc -Q . DS %s.v' % (timeout, propfile), cwd=COQ, timeout=timeout + 30)
     # parse Print Assumptions output: blocks "Closed under the global context" or "Axioms:\n name : type"
     printed = re.findall(r'^\s*Print Assumptions\s+([A-Za-z0-9_\'.]+)\s*\.', src, re.M)
     blocks = []
@@ -164,8 +166,7 @@ def build_model(fam, bdir):
     os.makedirs(bdir, exist_ok=True)
     ex = fam['extract']; model = fam['model']
     shutil.copy(os.path.join(VERIF, 'extract', ex), os.path.join(bdir, ex))
-    with Lock('coq'):
-        rc, out, _ = sh('timeout 600 coqc -Q %s DS %s' % (COQ, ex), cwd=bdir, timeout=630)
+    rc, out, _ = sh('timeout 600 coqc -Q %s DS %s' % (COQ, ex), cwd=bdir, timeout=630)
     if rc != 0:
         return None, 'extraction failed:\n' + out
     main = 'main_%s.ml' % model
@@ -417,7 +418,7 @@ class Check:
         if self.tier == 'thorough' and not broken:
             # independent re-check of the compiled property files and everything they depend on (coqchk), axioms listed
             for pf in spec.COQ_PROPS:
-                with Lock('coq'):
+                if True:
                     rc, out, dt = sh('timeout 1500 coqchk -o -silent -Q . DS DS.%s' % pf, cwd=COQ, timeout=1530)
                 axs = []
                 grab = False
@@ -525,7 +526,10 @@ class Check:
                     if not replaying:
                         small = self.shrink(fam, exe, model, c, fb, lambda st, sig=sig: sig in st['sigs'])
                     self.report(fam, small, 'property violated by the implementation: ' + f0['what'], f0, True, sig=sig)
-            elif diff is not None:
+            only_known = bool(fails) and all(is_known(self.prop, f['sig']) for f in fails)
+            if diff is not None and (not fails or only_known):
+                # (a case whose only oracle failures are recorded known findings is still compared with the model: the
+                #  model reproduces recorded findings, so a transcript difference there is a separate break)
                 famcov['mismatches'] += 1
                 small = c
                 if not replaying:
